@@ -610,6 +610,7 @@ func main() {
 	writeFile("MoreFacts.lean", genMoreFacts(facts))
 	writeFile("SeedFacts.lean", genSeedFacts(facts))
 	writeFile("SecretUses.lean", genSecretUses(facts))
+	writeFile("MachineFacts.lean", genMachineFacts(facts))
 	genFacts(facts)
 	facts["machines"] = ms
 	bz, _ := json.MarshalIndent(facts, "", " ")
